@@ -103,7 +103,7 @@ def summarise(run):
     if run.get("panic") or run.get("timeout") or run.get("crash"):
         return {"ui": "died", "h": "died", "diags": [str(run)[:200]]}
     return {"ui": sha(run.get("ui")) or "", "h": sha(run.get("header")) or "",
-            "diags": sorted("%s|%s|%d-%d|%s" % (d["kind"], d["msg"], d["s"], d["e"], ";".join("%s@%s-%s" % (l.get("msg"), l.get("s"), l.get("e")) for l in d.get("labels", [])))
+            "diags": sorted("%s|%s|%d-%d|%s" % (d["kind"], d["msg"], d["s"], d["e"], ";".join("%s@%s-%s" % (l[2], l[0], l[1]) for l in d.get("labels", [])))
                             for d in run.get("diags", []))}
 
 
